@@ -10,6 +10,9 @@ def main():
     reverse = False
     if '-R' in ids:
         ids.remove('-R'); reverse = True
+    thorough = False
+    if '--thorough' in ids:
+        ids.remove('--thorough'); thorough = True
     tmp = tempfile.mkdtemp(prefix='trymut.')
     try:
         repo = os.path.join(tmp, 'repo')
@@ -22,7 +25,9 @@ def main():
         for pid in ids:
             ctx = runner.Ctx(pid, 'quick', 0); ctx.repo = repo
             try:
-                runner.run_pack(ctx)
+                mod = runner.run_pack(ctx)
+                if thorough and hasattr(mod, 'thorough'):
+                    mod.thorough(ctx)
             except SystemExit as e:
                 print(pid, 'EXTRACTION FAILED', e); continue
             known = runner.load_known()
